@@ -36,6 +36,13 @@ structure Loc where
   line : Nat
 deriving Repr, Inhabited, BEq, DecidableEq
 
+/-- one call of a probe configurable, as the probe saw it -/
+structure CallEvent where
+  sel : Sel
+  scope : Scope
+  received : Received
+deriving Inhabited
+
 /-- a user finalize hook as data: the bindings it returns (`none` = returns `None`), or raising -/
 structure Hook where
   ret : Option (List (Key × Val)) := none
@@ -58,6 +65,8 @@ structure State where
   calls : AList Sel Nat := []
   /-- number of singleton constructors run so far (names the constructed objects) -/
   constructed : Nat := 0
+  /-- probe calls made while evaluating references (Layer 2, `Gin/Eval.lean`) -/
+  log : List CallEvent := []
 deriving Inhabited
 
 namespace State
@@ -302,107 +311,5 @@ def singletonUse (st : State) (key : String) (hasCtor : Bool) : Except Err (Stat
     .ok ({ st with singletons := AList.set key v st.singletons, constructed := st.constructed + 1 }, v)
 
 end State
-
-/-! ### histories of operations -/
-
-inductive Op where
-  | register (r : State.RegReq)
-  | bind (k : Key) (v : Val)
-  /-- a binding written as a one-member block: the block header is resolved first (2380-2384) -/
-  | bindBlock (k : Key) (v : Val)
-  | query (k : Key)
-  | call (sel : Sel) (enter : List ScopeArg) (args : List Val) (kwargs : AList String Val)
-  | getb (sel : Sel) (σ : Scope) (inherit : Bool)
-  | addHook (h : Hook)
-  | finalize
-  | clear (constants : Bool)
-  | constant (name : Sel) (nameValid : Bool) (v : Val)
-  | interactive (on : Bool)
-  | singleton (key : String) (hasCtor : Bool)
-  | observe (what : String)
-  | enter (cur : Scope) (arg : ScopeArg)
-  | unlock (body : List Op) (raises : Bool)
-deriving Inhabited
-
-inductive Out where
-  | ok
-  | err (e : Err)
-  | callErr (e : CallErr)
-  | value (v : Val)
-  | received (r : Received) (σ : Scope)
-  | kvs (l : AList String Val)
-  | store (s : Store)
-  | flag (b : Bool)
-  | scope (s : Scope)
-  | names (l : List String)
-  | body (outs : List Out)
-deriving Inhabited
-
-/-- gin's own configurables: `gin.macro(value)`, `gin.constant()`, `gin.singleton(constructor)` -/
-def initRegistry : SelMap Entry :=
-  ((SelMap.empty : SelMap Entry).set State.macroSel
-      { cfg := { selector := State.macroSel, sig := { pos := [("value", none)] } }, objId := 900001 }
-    |>.set State.constSel { cfg := { selector := State.constSel, sig := {} }, objId := 900002 }
-    |>.set ["gin", "singleton"]
-      { cfg := { selector := ["gin", "singleton"], sig := { pos := [("constructor", none)] } }, objId := 900003 })
-
-def initState : State := { constants := State.initConstants, registry := initRegistry }
-
-def foldEnter (enter : List ScopeArg) : Option Scope :=
-  enter.foldl (fun acc a => acc.bind (fun cur => enterScope cur a)) (some [])
-
-mutual
-  def step (st : State) : Op → State × Out
-    | .register r => match st.register r with
-        | .ok st' => (st', .ok) | .error e => (st, .err e)
-    | .bind k v => match st.bind k v with
-        | .ok st' => (st', .ok) | .error e => (st, .err e)
-    | .bindBlock k v =>
-        match st.registry.getMatch k.sel with
-        | .ambiguous _ => (st, .err .keyError)
-        | .none => (st, .err .valueError)
-        | .one _ _ => match st.bind k v with
-          | .ok st' => (st', .ok) | .error e => (st, .err e)
-    | .query k => match st.query k with
-        | .ok v => (st, .value v) | .error e => (st, .err e)
-    | .call sel enter args kwargs =>
-        match foldEnter enter with
-        | none => (st, .err .valueError)
-        | some σ =>
-          match st.call id sel σ args kwargs with
-          | (st', .failed e) => (st', .callErr e)
-          | (st', .received r _) => (st', .received r σ)
-    | .getb sel σ inherit =>
-        (st, .kvs (if inherit then getBindings st.config sel σ else getBindingsStrict st.config sel σ))
-    | .addHook h => ({ st with hooks := st.hooks ++ [h] }, .ok)
-    | .finalize => match st.finalize with
-        | .ok st' => (st', .ok) | .error e => (st, .err e)
-    | .clear c => (st.clear c, .ok)
-    | .constant name valid v => match st.defConstant name valid v with
-        | .ok st' => (st', .ok) | .error e => (st, .err e)
-    | .interactive on => ({ st with interactive := on }, .ok)
-    | .singleton key hasCtor => match st.singletonUse key hasCtor with
-        | .ok (st', v) => (st', .value v) | .error e => (st, .err e)
-    | .observe what =>
-        (st, match what with
-          | "locked" => .flag st.locked
-          | "operative" => .store st.operative
-          | "opstr" => .store (State.printable st.operative)
-          | "config" => .store st.config
-          | "registry" => .names (st.registry.keys.map (fun s => ".".intercalate s))
-          | "constants" => .names (st.constants.keys.map (fun s => ".".intercalate s))
-          | _ => .err (.other "bad-observe"))
-    | .enter cur arg => match enterScope cur arg with
-        | some s => (st, .scope s) | none => (st, .err .valueError)
-    | .unlock body _ =>
-        let (st', outs) := runOps { st with locked := false } body
-        ({ st' with locked := st.locked }, .body outs)
-  def runOps (st : State) : List Op → State × List Out
-    | [] => (st, [])
-    | op :: rest =>
-        let (st1, o) := step st op
-        let (st2, os) := runOps st1 rest
-        (st2, o :: os)
-end
 
 end Gin
